@@ -28,7 +28,7 @@ TRUSTED = ["T1 incl. pointwise comprehension rule over abstract sequences"]
 ASSUMPTIONS = ["A-F pyfaidx: fasta[chrom][a:b] is the 0-based half-open slice, .reverse.complement the reverse complement, .seq the string",
                "children(order_by='start') returns the block features ascending by start (C02/C11 contracts)", "stored features have start <= end"]
 PRECONDITIONS = ["column values contain no tab", "block features have integer coordinates with start <= end"]
-FUNCTIONS = ["gffutils.feature:Feature.__len__", "gffutils.feature:Feature.sequence", "gffutils.interface:FeatureDB.bed12", "gffutils.convert:to_bed12"]
+FUNCTIONS = ["gffutils.interface:FeatureDB.__getitem__", "gffutils.feature:Feature.__len__", "gffutils.feature:Feature.sequence", "gffutils.interface:FeatureDB.bed12", "gffutils.convert:to_bed12"]
 
 NOTAB = frozenset("\t\n\r")
 
